@@ -20,7 +20,7 @@ def parse_plist(txt):
 
 class Cfg:
     def __init__(self, line):
-        self.hosts = []; self.ka = 60; self.cid = b""; self.user = None; self.pw = None; self.coprops = []; self.will = None
+        self.hosts = []; self.ka = 60; self.cid = b""; self.user = None; self.pw = None; self.coprops = []; self.will = None; self.auth = None
         for kv in line.split()[1:]:
             k, v = kv.split("=", 1)
             if k == "brokers":
@@ -30,6 +30,7 @@ class Cfg:
                     host, _, port = h.partition(":")
                     self.hosts.append(f"{host}:{port or 1883}")
             elif k == "ka": self.ka = int(v)
+            elif k == "auth": self.auth = bytes.fromhex(v)
             elif k == "cid": self.cid = bytes.fromhex(v) if v != "-" else b""
             elif k == "user": self.user = bytes.fromhex(v)
             elif k == "pass": self.pw = bytes.fromhex(v)
@@ -38,12 +39,17 @@ class Cfg:
                 t, m, q, r, pl = v.split("/", 4)
                 self.will = dict(topic=bytes.fromhex(t), message=bytes.fromhex(m) if m != "-" else b"", qos=int(q), retain=int(r), props=parse_plist(pl))
 
+    def connect_props(self):
+        """CONNECT properties the client must send: the configured ones, plus method and initial data of a configured authenticator"""
+        if self.auth is None: return list(self.coprops)
+        return [p for p in self.coprops if p[0] not in (0x15, 0x16)] + [(0x15, self.auth), (0x16, b"d0")]
+
     def enc_line(self):
         """line for the Lean encoder model (mdrv `enc connect`), Clean Start 0"""
         hx = lambda b: b.hex() or "-"
         w = "0"
         if self.will: w = f"1 {hx(self.will['topic'])} {hx(self.will['message'])} {self.will['qos']} {self.will['retain']} {ref.plist_text(self.will['props'])}"
-        return f"enc connect {hx(self.cid)} {hx(self.user) if self.user is not None else 'none'} {hx(self.pw) if self.pw is not None else 'none'} {self.ka} 0 {ref.plist_text(self.coprops)} {w}"
+        return f"enc connect {hx(self.cid)} {hx(self.user) if self.user is not None else 'none'} {hx(self.pw) if self.pw is not None else 'none'} {self.ka} 0 {ref.plist_text(self.connect_props())} {w}"
 
 
 def canon(ps):
@@ -94,7 +100,7 @@ def mon_c10(v, expected_connect=None):
             out.append(V("C10", f"first packet on {k} is not a well-formed packet: {ex}", i0)); continue
         if d["type"] != "connect":
             out.append(V("C10", f"first packet on {k} is {d['type']}, not CONNECT", i0)); continue
-        exp = dict(clean_start=0, keep_alive=cfg.ka, client_id=cfg.cid, user=cfg.user, props=canon(cfg.coprops))
+        exp = dict(clean_start=0, keep_alive=cfg.ka, client_id=cfg.cid, user=cfg.user, props=canon(cfg.connect_props()))
         exp["pass"] = cfg.pw
         got = {f: (canon(d[f]) if f == "props" else d[f]) for f in exp}
         if got != exp:
@@ -107,17 +113,24 @@ def mon_c10(v, expected_connect=None):
             out.append(V("C10", f"CONNECT bytes on {k} differ from the encoder model: {first.hex()} != {expected_connect.hex()}", i0, tie=True))
         for i, b in ws[1:]:
             if k not in became_up or i < became_up[k]:
-                out.append(V("C10", f"packet {b.hex()} written on {k} before a successful CONNACK", i))
+                # the AUTH exchange of a configured authenticator is the only traffic allowed before the CONNACK
+                is_auth = False
+                if cfg.auth is not None:
+                    try: is_auth = ref.decode(b)["type"] == "auth"
+                    except ref.Malformed: is_auth = False
+                if not is_auth:
+                    out.append(V("C10", f"packet {b.hex()} written on {k} before a successful CONNACK", i))
     # established only after a complete successful CONNACK was delivered on that socket
     for k, i in became_up.items():
         data = bytes(rx.get(k, b""))
         pk, rest = ref.split_stream(data)
         good = False
-        if pk:
-            try:
-                d = ref.decode(pk[0]); good = d["type"] == "connack" and d["rc"] < 0x80
-            except ref.Malformed:
-                good = False
+        for j, one in enumerate(pk):
+            try: d = ref.decode(one, lenient=True)
+            except ref.Malformed: break
+            if d["type"] == "auth" and cfg.auth is not None: continue      # AUTH rounds of a configured authenticator precede the CONNACK
+            good = d["type"] == "connack" and d["rc"] < 0x80
+            break
         # bytes delivered before the line that established the connection
         if not good:
             out.append(V("C10", f"connection on {k} established without a successful CONNACK (received {data.hex()})", i))
@@ -297,6 +310,36 @@ def mon_c02(v):
     return out
 
 
+def mon_c15(v):
+    """the capabilities the validators consult are the ones the accepted CONNACK carried (and the Session Present flag is the CONNACK's)"""
+    out = []
+    rx = {}; seen_up = set()
+    for i, (line, evs, st, t) in enumerate(v.tr):
+        ws = line.split()
+        if ws and ws[0] == "srx": rx.setdefault(ws[1], bytearray()).extend(bytes.fromhex(ws[2]))
+        k = st.get("cur")
+        if st.get("wc") == "1" and st.get("locked") == "0" and k not in seen_up and k in rx:
+            seen_up.add(k)
+            pk, _ = ref.split_stream(bytes(rx[k]))
+            ca = None
+            for one in pk:
+                try: d = ref.decode(one, lenient=True)
+                except ref.Malformed: break
+                if d["type"] == "connack": ca = d; break
+            if ca is None: continue
+            want = {}
+            for pid, val in ca["props"]:
+                if pid == 0x26: want.setdefault(pid, []).append(val)
+                else: want[pid] = [val]          # single-valued slot: the last one wins
+            got = {}
+            for pid, val in parse_plist(st.get("caps", "-")): got.setdefault(pid, []).append(val)
+            if got != want:
+                out.append(V("C15", f"capabilities stored after the CONNACK on {k} are {st.get('caps')}, the CONNACK carried {ref.plist_text(ca['props'])}", i))
+            if st.get("sp") != str(ca["sp"]):
+                out.append(V("C15", f"Session Present stored as {st.get('sp')}, the CONNACK said {ca['sp']}", i))
+    return out
+
+
 def mon_c19(v):
     out = []
     if v.crash:
@@ -304,4 +347,4 @@ def mon_c19(v):
     return out
 
 
-MONITORS = {"C10": mon_c10, "C11": mon_c11, "C12": mon_c12, "C02": mon_c02, "C19": mon_c19}
+MONITORS = {"C10": mon_c10, "C11": mon_c11, "C12": mon_c12, "C02": mon_c02, "C19": mon_c19, "C15": mon_c15}
